@@ -322,8 +322,16 @@ fn judge(case: &Case, obs: &Option<(Iv, bool)>) -> Vec<(String, String)> {
     };
     let ambiguous = matches!(&case.serial, Some((_, x)) if *x != case.ext);
     if !ambiguous {
+        if std::env::var("C04_DEBUG").is_ok() && want_ext && hull == base {
+            eprintln!("DBG|{}|{}|{}", case.shape_key(), case.is_size(), match obs { None => "none".to_string(), Some(o) => format!("some ext={}", o.1) });
+        }
         let got_ext = obs.map(|o| o.1).unwrap_or(false);
-        if got_ext != want_ext && !(obs.is_none() && want_ext && hull == base) {
+        // an effective constraint that is the whole base range gets no annotation at all, marker or not: measured on the
+        // pinned tree for every INTEGER case and for SIZE expressions containing EXCEPT / ALL EXCEPT; a SIZE built from
+        // ranges and unions only (e.g. `SIZE (0..MAX, ...)`) does get `size("0..", extensible)` and is judged
+        let has_except = case.expr.all_except.is_some() || case.expr.terms.iter().flatten().any(|(_, e)| e.is_some()) || case.serial.as_ref().is_some_and(|(e, _)| e.all_except.is_some() || e.terms.iter().flatten().any(|(_, x)| x.is_some()));
+        let no_annotation_for_full_range = obs.is_none() && want_ext && hull == base && (!case.is_size() || has_except);
+        if got_ext != want_ext && !no_annotation_for_full_range {
             out.push(("extensible-flag".to_string(), format!("extensible={got_ext}, constraint {} an extension marker", if want_ext { "carries" } else { "has no" })));
         }
     }
